@@ -1671,7 +1671,7 @@ func (r *replicateChannelHandler) handleStreamPack(forward bool, pack *msgstream
 					log.Warn("invalid drop partition message", zap.Any("msg", msg))
 				}
 				r.recordLock.RUnlock()
-				if r.isDroppedCollection(realMsg.CollectionID) ||
+				if r.isDroppedCollection(sourceCollectionID) ||
 					r.isDroppedPartition(realMsg.PartitionID) {
 					return nil
 				}
@@ -1680,7 +1680,7 @@ func (r *replicateChannelHandler) handleStreamPack(forward bool, pack *msgstream
 			if retryErr != nil && err == nil {
 				err = retryErr
 			}
-			if r.isDroppedCollection(realMsg.CollectionID) ||
+			if r.isDroppedCollection(sourceCollectionID) ||
 				r.isDroppedPartition(realMsg.PartitionID) {
 				log.Info("skip drop partition msg because partition or collection is dropping",
 					zap.Int64("partition_id", realMsg.PartitionID), zap.String("partition_name", realMsg.PartitionName))
